@@ -248,7 +248,7 @@ def enum_strings(ctx, bound):
 _TOKENS = ["$", "$$", "${", "}", "$(", ")", "$a", "$B_1", "${a}", "${Xy}",
            "$(ZCV_e)", "$(zcv_E)", " ", "-", "{", "(", "a", "1", "_",
            "é", "ß", "中", "٣", " ", "\U0001f600",
-           "\n", "\t", "$é", "${é}", "$aé"]
+           "\n", "\t", "$é", "${é}", "$aé", "\0", "\x01", "\ue000"]
 
 
 def random_string(rng):
@@ -281,10 +281,13 @@ _FOREIGN = ["\u212a", "\u017f", "\u0130", "\u0131", "\u2126", "\u212b",
             "\xe9", "\xdf", "\u01c5", "\uff11", "\u0663", "\xb2", "\xaa",
             "\xb5", "\u4e2d", "\uff41", "\u0391", "\u203f", "\uff3f",
             # ASCII neighbours of A-Z, a-z, 0-9 (a class written 'A-z')
-            "[", "\\", "]", "^", "`", "@", "|", "/", ":"]
+            "[", "\\", "]", "^", "`", "@", "|", "/", ":",
+            # characters an implementation might use as private markers
+            "\0", "\x01", "\x7f", "\ufffe", "\uffff", "\ue000"]
 _BOUNDARY = ["$%s", "${%s}", "$(%s)", "$a%s", "${a%s}", "$(a%s)", "$a%s b",
              "$%sa", "${%sa}", "$(%sa)", "x$_%s", "$a1%s$a", "$$%s", "$a%s}",
-             "${a}%s", "$A%s", "$a\n", "${a}\n", "$a%s\n", "%s$a"]
+             "${a}%s", "$A%s", "$a\n", "${a}\n", "$a%s\n", "%s$a",
+             "$$%s$$", "%s$$", "$$x%s", "%s"]
 
 
 def boundary_strings():
